@@ -12,6 +12,11 @@ COMMON_NOTE = ("Trusted: Coq 8.16.1 kernel (vm_compute used, native_compute not 
                "runtime semantics are modelled as executable Gallina and validated by the correspondence, not verified.")
 
 CLAIMED = {
+    "C06": dict(
+        text="Coq theorems by induction over ARBITRARY sequences of ContextResults (any number of contexts, any window layout incl. overlapping, any yield order, any stream/test multiplicity): both collect forms expose exactly one accumulator per (stream, package, test) in first-seen order (NoDup, complete) and its row i holds the flag of the last context covering i, masked/UNKNOWN if none; covered/uncovered/list-dict agreement and permutation invariance for disjoint windows are corollaries. Faithful model (incl. the data/axis arrays and numpy's scatter errors) tied to the code by correspondence on generated histories; the property's specification is additionally compared with the implementation on the well-formed disjoint histories. Known finding F11 (list form raises without axis arrays) is refuted in Coq by a witness and reported as KNOWN-FINDING.",
+        design_ref="DESIGN.md §8 C06",
+        technique="Coq proof (fold invariant over the operation sequence; last-writer-wins refinement) + correspondence on generated histories",
+    ),
     "C09": dict(
         text="Coq theorems (all lengths, all missing placements, both methods, all threshold combinations): the operational model of spike_test equals the per-point specification (end points UNKNOWN, interior decided from the two neighbours by the average / differential magnitude, FAIL over SUSPECT over GOOD with strict comparisons, MISSING when a needed value is missing); bad method rejected. Tied by correspondence on all series of length<=3 over a 6-symbol alphabet x methods x 16 threshold pairs plus random longer series.",
         design_ref="DESIGN.md §8 C09",
